@@ -9,6 +9,7 @@ package webserver
 import (
 	"bufio"
 	"bytes"
+	"errors"
 	"fmt"
 	"io"
 	"net"
@@ -40,7 +41,7 @@ func (r *httpRig) park(method, target string, hdr map[string]string, body []byte
 	if err != nil {
 		return nil, nil, fmt.Errorf("VERIF-HARNESS-ERROR dial: %w", err)
 	}
-	c.SetDeadline(time.Now().Add(20 * time.Second))
+	c.SetDeadline(time.Now().Add(60 * time.Second))
 	var b bytes.Buffer
 	fmt.Fprintf(&b, "%s %s HTTP/1.1\r\nHost: %s\r\n", method, target, r.addr)
 	keys := make([]string, 0, len(hdr))
@@ -60,6 +61,10 @@ func (r *httpRig) park(method, target string, hdr map[string]string, body []byte
 	resp, err := http.ReadResponse(br, &http.Request{Method: method})
 	if err != nil {
 		c.Close()
+		var ne net.Error
+		if errors.As(err, &ne) && ne.Timeout() {
+			return nil, nil, fmt.Errorf("VERIF-HARNESS-ERROR: no response within 60 s: %w", err)
+		}
 		return nil, nil, err
 	}
 	if resp.StatusCode == 100 {
@@ -78,6 +83,10 @@ func (p *parkedReq) finish() (*rawResp, error) {
 	}
 	resp, err := http.ReadResponse(p.br, &http.Request{Method: p.meth})
 	if err != nil {
+		var ne net.Error
+		if errors.As(err, &ne) && ne.Timeout() {
+			return nil, fmt.Errorf("VERIF-HARNESS-ERROR: no response within 60 s: %w", err)
+		}
 		return nil, err
 	}
 	defer resp.Body.Close()
